@@ -67,6 +67,7 @@ def op_strategy():
         st.tuples(st.just("del_ref"), st.integers(0, 5)),
         st.tuples(st.just("head"), st.sampled_from(["b0", "b1", "unborn", "detach"]), st.integers(0, 6)),
         st.tuples(st.just("dup_pack"), st.integers(0, 6)),
+        st.tuples(st.just("readd"), st.integers(0, 6)),
         st.tuples(st.just("thin_pack"), st.integers(0, 3)),
         st.tuples(st.just("alternate"), st.integers(0, 3)),
         st.tuples(st.just("age"), st.sampled_from(["loose", "packs", "all"])),
@@ -86,6 +87,7 @@ def op_strategy():
         [("commit", -1, 0, "loose", "b0"), ("commit", 0, 1, "pack", "dangling"), ("commit", 1, 2, "loose", "b0"), ("tag", "commit", 0, "annot", 0, "loose")],
         [("commit", -1, 0, "pack", "b0"), ("commit", 0, 0, "pack", "b1"), ("commit", 1, 1, "loose", "dangling"), ("tag", "tree", 0, "annot", 1, "pack"), ("age", "all"),
          ("commit", 2, 3, "loose", "dangling")],
+        [("commit", -1, 0, "pack", "b0"), ("commit", 0, 1, "pack", "dangling"), ("commit", 0, 2, "loose", "b1"), ("pack_loose",), ("age", "all"), ("readd", 0), ("readd", 1), ("readd", 2)],
         [("commit", -1, 0, "loose", "b0", -2), ("commit", 0, 1, "loose", "b0", -2), ("commit", 1, 2, "loose", "b0", -2), ("commit", 2, 3, "loose", "b0", 0),
          ("commit", 3, 4, "pack", "b0", 1), ("age", "all")],
     ])
@@ -227,6 +229,18 @@ class Machine:
             elif self.sel(self.commits, i):
                 with open(os.path.join(r.controldir(), "HEAD"), "wb") as f:
                     f.write(self.sel(self.commits, i) + b"\n")
+        elif k == "readd":
+            # add_object of something the repository already has (what a writer does before it references an object):
+            # unreachable objects first
+            from dulwich.objects import ShaFile
+
+            reach, _tips = self.snapshot()
+            have = sorted(self.locations())
+            cands = [i for i in have if i not in reach] or have
+            if cands:
+                i = cands[op[1] % len(cands)]
+                o = r[i]
+                self.store().add_object(ShaFile.from_raw_string(o.type_num, o.as_raw_string()))
         elif k == "dup_pack":
             cid = self.sel(self.commits, op[1])
             if cid:
@@ -418,6 +432,16 @@ def run_case(ctx, ops, check="machine"):
             locs = m.locations()
             now = time.time()
             fresh_unreach = {i for i, ms in locs.items() if i not in reach and all(now - t < 1800 for t in ms)}
+            # an object that was (re-)added a moment ago has a fresh loose file, whatever older copies sit in packs: that
+            # is how a writer protects an object it is about to reference from a concurrent gc
+            od0 = os.path.join(m.path, ".git", "objects")
+            for i in locs:
+                if i not in reach:
+                    lp = os.path.join(od0, i[:2].decode(), i[2:].decode())
+                    if os.path.exists(lp) and now - os.path.getmtime(lp) < 1800:
+                        if i not in fresh_unreach:
+                            labels.add("fresh-loose-copy-of-old-packed-unreachable")
+                        fresh_unreach.add(i)
             n_packs = len([f for f in os.listdir(os.path.join(m.store().path, "pack")) if f.endswith(".pack")]) if os.path.isdir(os.path.join(m.store().path, "pack")) else 0
             n_loose = sum(1 for i, ms in locs.items())
             od = os.path.join(m.path, ".git", "objects")
